@@ -152,7 +152,7 @@ def run_harness(h, tier, logdir):
     us = ["memcmp.0:26"] + h.unwindset
     cbmc += ["--unwindset", ",".join(us)]
     cmd += ["--cbmc-args"] + cbmc
-    timeout = h.timeout or (420 if tier == "quick" else 2400)
+    timeout = h.timeout or (1200 if tier == "quick" else 3600)
     log = os.path.join(logdir, f"{h.crate}.{h.name}.log")
     t0 = time.time()
     res = {"harness": h.name, "crate": h.crate, "qual": h.qual, "prop": h.prop, "cmd": " ".join(cmd), "log": log, "bounds": h.bounds, "assumes": h.assumes, "desc": h.desc, "stubs": h.stubs, "unwind": h.unwind if h.unwind is not None else 20}
